@@ -48,12 +48,55 @@ theorem runWorkers_of_quiet (n : Nat) (m : M) (h : workersQuiet m.1 = true) : ru
         simp
       · rfl
 
+/-- Fuel composes: running `a + b` links is running `a`, then `b`. -/
+theorem runWorkers_add (a b : Nat) (m : M) : runWorkers (a + b) m = runWorkers b (runWorkers a m) := by
+  induction a generalizing m with
+  | zero => rw [Nat.zero_add]; rfl
+  | succ a ih =>
+    rw [Nat.add_right_comm]
+    by_cases hq : workersQuiet m.1 = true
+    · rw [runWorkers_of_quiet _ m hq, runWorkers_of_quiet _ m hq, runWorkers_of_quiet _ m hq]
+    · have hnq : ∀ x : M, x = m → workersQuiet x.1 = true → False := fun x hx h => hq (hx ▸ h)
+      simp only [runWorkers]
+      split
+      · next h1 => exact absurd (by unfold workersQuiet; simp [h1]) hq
+      split
+      · exact ih _
+      split
+      · exact ih _
+      split
+      · exact ih _
+      split
+      · next w hw =>
+        split
+        · exact ih _
+        · next h1 h2 h3 h4 h5 =>
+          exfalso; apply hq
+          unfold workersQuiet workersPending
+          rw [hw]
+          simp only [Bool.or_eq_true, Bool.not_eq_true', not_or, Bool.not_eq_false] at h5
+          simp_all
+          refine ⟨⟨?_, ?_⟩, ?_⟩
+          · cases h1 : m.1.stopAnn <;> simp_all
+          · cases h1 : m.1.allocator <;> simp_all
+          · cases h1 : m.1.verifier <;> simp_all
+      · next h1 h2 h3 h4 hw =>
+        exfalso; apply hq
+        unfold workersQuiet workersPending
+        rw [hw]
+        simp_all
+        refine ⟨⟨?_, ?_⟩, ?_⟩
+        · cases h1 : m.1.stopAnn <;> simp_all
+        · cases h1 : m.1.allocator <;> simp_all
+        · cases h1 : m.1.verifier <;> simp_all
+
 /-! ### The livelock: a pending verify and a storage that cannot open the files -/
 
 /-- The two phases of the endless restart: stopping (the stop announcer about to report) and allocating (the
 allocator about to fail), with a verification pending and `Open` failing. -/
 structure Flap (s : St) : Prop where
   np : s.panicked = none
+  errC : s.errC = true
   dv : s.doVerify = true
   info : s.info = true
   fo : s.failOpen = true
@@ -82,7 +125,7 @@ theorem stop_gates_off_open (s : St) (e : Bool) (ho : s.gateOpen = false) : (s.s
 /-- stopping → allocating: the stop announcer reports, `doVerify` restarts the torrent. -/
 theorem Flap.afterStopped {m : M} (h : Flap m.1) (hs : m.1.stopAnn = true) (ha : m.1.allocator = false) :
     Flap (handleStopped m).1 := by
-  obtain ⟨np, dv, info, fo, sh, go, ver, loaded, peers, _⟩ := h
+  obtain ⟨np, _, dv, info, fo, sh, go, ver, loaded, peers, _⟩ := h
   unfold handleStopped
   simp only [onSt_fst, dv, ↓reduceIte]
   unfold startCore
@@ -93,14 +136,14 @@ theorem Flap.afterStopped {m : M} (h : Flap m.1) (hs : m.1.stopAnn = true) (ha :
 theorem flap_stop (x : St) (e : Bool) (hr : Running x) (np : x.panicked = none) (dv : x.doVerify = true)
     (info : x.info = true) (fo : x.failOpen = true) (sh : x.stopHang = false) (go : x.gateOpen = false) :
     Flap (x.stop e) := by
-  obtain ⟨_, _, f3, f4, f5, f6, _, _, f9, _⟩ := stop_running_fields x e hr
-  exact ⟨by rw [stop_panicked]; exact np, by simpa using dv, by simpa using info, by simpa using fo,
+  obtain ⟨_, f2, f3, f4, f5, f6, _, _, f9, _⟩ := stop_running_fields x e hr
+  exact ⟨by rw [stop_panicked]; exact np, f2, by simpa using dv, by simpa using info, by simpa using fo,
     by simpa using sh, stop_gates_off_open x e go, f5, f6, f9, Or.inl ⟨f3, f4⟩⟩
 
 /-- allocating → stopping: `Open` fails, `stop(err)`; the verification request survives. -/
 theorem Flap.afterAlloc {m : M} (h : Flap m.1) (hs : m.1.stopAnn = false) (ha : m.1.allocator = true)
     (he : m.1.errC = true) : Flap (allocatorRun m).1 := by
-  obtain ⟨np, dv, info, fo, sh, go, ver, loaded, peers, _⟩ := h
+  obtain ⟨np, _, dv, info, fo, sh, go, ver, loaded, peers, _⟩ := h
   unfold allocatorRun
   dsimp only
   rw [if_pos fo]
